@@ -316,3 +316,56 @@ pub proof fn lemma_pay_special_soundness(p: PayProof, p2: PayProof, pk: PublicKe
     lemma_extract_shifted_slot(zs[4], zs2[4], zo[4], zo2[4], c, c2, amt);
     lemma_extract_equal_slots(zc[4], zc2[4], zs[4], zs2[4], c, c2);
 }
+
+/// C13 / C02, special soundness of one range constraint (algebraic part): two accepting transcripts with the same first
+/// message and different challenges yield nine digits wd_j such that (a) the value the constraint is linked to extracts to
+/// Σ 128^j·wd_j, and (b) for every j the shown blinded signature unblinds to a VALID signature under the range key on wd_j.
+/// Hence the linked value lies in [0, 2^63) provided only the digits 0..127 carry signatures under that key - which is what
+/// `validate()` + unforgeability give (the unforgeability step is the cryptographic hypothesis, not mechanised).
+pub proof fn lemma_range_special_soundness(rc: RangeConstraint, rc2: RangeConstraint, rp: RangeConstraintParameters, c: Scalar, c2: Scalar, e: Scalar, e2: Scalar)
+    requires
+        rc_accept(rc, rp, c, e), rc_accept(rc2, rp, c2, e2), c != c2,
+        (*rp.public_key.y2s)@.len() == 1,
+        forall|j: int| 0 <= j < 9 ==> {
+            let p = #[trigger] (*rc.digit_proofs)@[j];
+            let p2 = (*rc2.digit_proofs)@[j];
+            &&& p.blinded_signature == p2.blinded_signature
+            &&& p.commitment_proof.commitment == p2.commitment_proof.commitment
+            &&& p.commitment_proof.scalar_commitment == p2.commitment_proof.scalar_commitment
+            &&& sp_z(p).len() == 1 && sp_z(p2).len() == 1
+        },
+    ensures
+        ({
+            let wd = extract(rc_zs(rc), rc_zs(rc2), c, c2);
+            &&& wsum(s_int(128), wd, 9) == extract1(e, e2, c, c2)
+            &&& forall|j: int| 0 <= j < 9 ==> {
+                    let p = #[trigger] (*rc.digit_proofs)@[j];
+                    let p2 = (*rc2.digit_proofs)@[j];
+                    let ro = extract1(p.commitment_proof.blinding_factor_response_scalar, p2.commitment_proof.blinding_factor_response_scalar, c, c2);
+                    ps_valid(rp.public_key.g2, rp.public_key.x2, (*rp.public_key.y2s)@, seq![wd[j]],
+                        p.blinded_signature.0.sigma1, g_sub(p.blinded_signature.0.sigma2, g_mul(p.blinded_signature.0.sigma1, ro)))
+                }
+        }),   // @ob range-special-soundness [C13 C02]
+{
+    let wd = extract(rc_zs(rc), rc_zs(rc2), c, c2);
+    lemma_wsum_extract(s_int(128), rc_zs(rc), rc_zs(rc2), c, c2, 9);
+    assert forall|j: int| 0 <= j < 9 implies {
+            let p = #[trigger] (*rc.digit_proofs)@[j];
+            let p2 = (*rc2.digit_proofs)@[j];
+            let ro = extract1(p.commitment_proof.blinding_factor_response_scalar, p2.commitment_proof.blinding_factor_response_scalar, c, c2);
+            ps_valid(rp.public_key.g2, rp.public_key.x2, (*rp.public_key.y2s)@, seq![wd[j]],
+                p.blinded_signature.0.sigma1, g_sub(p.blinded_signature.0.sigma2, g_mul(p.blinded_signature.0.sigma1, ro)))
+        } by {
+        let p = (*rc.digit_proofs)@[j];
+        let p2 = (*rc2.digit_proofs)@[j];
+        let pk = rp.public_key;
+        assert(sp_accept(p, pk, c) && sp_accept(p2, pk, c2));
+        lemma_schnorr_special_soundness(pk.g2, (*pk.y2s)@, p.commitment_proof.commitment.0, p.commitment_proof.scalar_commitment.0,
+            p.commitment_proof.blinding_factor_response_scalar, sp_z(p), c, p2.commitment_proof.blinding_factor_response_scalar, sp_z(p2), c2);
+        let w = extract(sp_z(p), sp_z(p2), c, c2);
+        assert(rc_zs(rc)[j] == sp_z(p)[0] && rc_zs(rc2)[j] == sp_z(p2)[0]);
+        assert(w =~= seq![wd[j]]);
+        let ro = extract1(p.commitment_proof.blinding_factor_response_scalar, p2.commitment_proof.blinding_factor_response_scalar, c, c2);
+        lemma_ps_unblind_link(pk.g2, pk.x2, (*pk.y2s)@, w, p.blinded_signature.0.sigma1, p.blinded_signature.0.sigma2, ro);
+    }
+}
